@@ -1,7 +1,7 @@
 #!/usr/bin/env python3
 """False-alarm probe: behaviour-preserving refactorings produced independently (seeded/<id>/harmless_n.diff) are applied to a scratch
 copy of the /repo working tree; ./check <id> must not report a violation (exit 0 expected; exit 2 = UNDECIDED is recorded, exit 1 or a
-VIOLATION line is a FALSE ALARM).  Results: seeded/harmless_results.json.   usage: harmless.py [--only C05,C07]"""
+VIOLATION line is a FALSE ALARM).  Results: seeded/harmless_results.json.   usage: harmless.py [--only C05,C07] [--nums 7,8,9] [--results FILE] [--merge FILE...]"""
 import glob
 import json
 import os
@@ -18,6 +18,16 @@ REPO = '/repo'
 def main():
     only = set(sys.argv[sys.argv.index('--only') + 1].split(',')) if '--only' in sys.argv else None
     res_path = os.path.join(VERIF, 'seeded', 'harmless_results.json')
+    if '--results' in sys.argv:          # separate result file (parallel runs over different properties; merge with --merge)
+        res_path = sys.argv[sys.argv.index('--results') + 1]
+    nums = set(sys.argv[sys.argv.index('--nums') + 1].split(',')) if '--nums' in sys.argv else None
+    if '--merge' in sys.argv:
+        main_path = os.path.join(VERIF, 'seeded', 'harmless_results.json')
+        merged = json.load(open(main_path)) if os.path.exists(main_path) else {}
+        for f in sys.argv[sys.argv.index('--merge') + 1:]:
+            merged.update(json.load(open(f)))
+        json.dump(merged, open(main_path, 'w'), indent=1, sort_keys=True)
+        return
     results = json.load(open(res_path)) if os.path.exists(res_path) else {}
     for pdir in sorted(glob.glob(os.path.join(VERIF, 'seeded', 'C*'))):
         pid = os.path.basename(pdir)
@@ -25,6 +35,8 @@ def main():
             continue
         for patch in sorted(glob.glob(os.path.join(pdir, 'harmless_*.diff'))):
             n = re.search(r'harmless_(\d+)\.diff', patch).group(1)
+            if nums and n not in nums:
+                continue
             key = f'{pid}/h{n}'
             meta_p = os.path.join(pdir, f'harmless_{n}.json')
             meta = json.load(open(meta_p)) if os.path.exists(meta_p) else {}
